@@ -219,12 +219,66 @@ def correspond(ctx):
             if dis <= 5:
                 ctx.violation('c19:decision-differs:blas.%s' % what.split('(')[0], 'blas.%s: real wrapper gives %s, the checks as translated give %s' % (what, res, exp),
                               {'call': what, 'real': res, 'model': exp})
+    kev = kernel_probes(ctx, rng)
+    evals += kev
+    ctx.cov['kernel_probes'] = kev
     ctx.cov.update({'evaluations': evals, 'distinct_nontrivial': len(distinct),
                     'rule': '%d argument tuples per blas routine (34 routines): keyword arguments omitted / small values in [-2, 13] / flags incl. invalid; '
                             '20%% of the tuples also draw from {2^31-1, 2^31-2, 2^30, 65537, 2^16, -2^31}; shapes incl. empty and wrong typecodes; every '
                             'call runs in a worker subprocess (announced before execution); distinct = (routine, outcome, set of given keywords)' % per,
                     'protocol_lines_compared': len(lines), 'disagreements_checked': dis})
     ctx.samples += lines[:3]
+
+KERNELS = ['scale', 'scale2', 'pack', 'pack2', 'unpack', 'symm', 'sprod', 'sinv', 'trisc', 'triusc', 'sdot', 'max_step']
+KERNEL_ARGS = {'scale': ['x'], 'scale2': ['lmbda', 'x'], 'pack': ['x', 'y'], 'pack2': ['x'], 'unpack': ['x', 'y'], 'symm': ['x'], 'sprod': ['x', 'y'],
+               'sinv': ['x', 'y'], 'trisc': ['x'], 'triusc': ['x'], 'sdot': ['x', 'y'], 'max_step': ['x', 'sigma']}
+
+def kernel_probes(ctx, rng):
+    """misc_solvers kernels in a build whose allocator puts a PROT_NONE page right after (or, in the second pass, right before) every
+    buffer: (1) with arguments of the documented lengths no call may fault; (2) with one argument too short the call must be refused
+    with an exception - a fault or a silent return means the kernel does not validate its lengths"""
+    gb = vlib.build_repo(guard=True)
+    n = 6 if ctx.quick() else 120
+    evals = 0
+    cid = 10**6
+    for under in ('0', '1'):
+        os.environ['CVXOPT_GUARD_UNDER'] = under
+        w = Worker(gb)
+        try:
+            for k in KERNELS:
+                for it in range(n):
+                    dims = {'l': rng.randint(0, 3), 'q': [rng.randint(1, 4) for _ in range(rng.randint(0, 2))], 's': [rng.randint(0, 3) for _ in range(rng.randint(0, 2))]}
+                    if k in ('sinv', 'scale2', 'sprod', 'scale', 'max_step'): dims['s'] = [m for m in dims['s'] if m > 0]
+                    mnl = rng.choice([0, 0, 1, 2])
+                    case = {'kind': 'kernel', 'kernel': k, 'dims': dims, 'mnl': mnl, 'id': cid}; cid += 1
+                    if k == 'scale': case.update(trans=rng.choice('NT'), inverse=rng.choice('NI'), ncols=rng.randint(1, 3))
+                    if k in ('scale2',): case.update(inverse=rng.choice('NI'))
+                    if k in ('pack', 'unpack'): case.update(offsetx=rng.randint(0, 3), offsety=rng.randint(0, 3))
+                    if k == 'symm': case.update(n=rng.randint(0, 4), offset=rng.randint(0, 3))
+                    if k in ('trisc', 'triusc'): case.update(offset=rng.randint(0, 3), mnl=0)
+                    if k == 'sprod': case.update(diag=rng.choice('ND'))
+                    if k == 'max_step': case.update(sigma=rng.random() < 0.5)
+                    res = w.run(case); evals += 1
+                    if res.startswith('crash') or res == 'worker-died':
+                        ctx.violation('c19:kernel-out-of-bounds:misc_solvers.' + k, 'misc_solvers.%s with arguments of the documented lengths touches memory %s its buffers (%s)' % (
+                            k, 'before' if under == '1' else 'after', res), case)
+                    elif res != 'ok':
+                        ctx.violation('c19:kernel-refuses-valid:misc_solvers.' + k, 'misc_solvers.%s raised %s on arguments of the documented lengths' % (k, res), case)
+                    # one argument too short
+                    if under == '0' and it < max(2, n // 3):
+                        args = [a for a in KERNEL_ARGS[k] if not (a == 'sigma' and not case.get('sigma'))]
+                        c2 = dict(case, id=cid, short=rng.choice(args), cut=rng.randint(1, 3)); cid += 1
+                        N = c2['mnl'] + dims['l'] + sum(dims['q']) + sum(m * m for m in dims['s'])
+                        if N < 4 or (k == 'symm' and c2['n'] < 2) or (c2['short'] == 'sigma' and sum(dims['s']) < c2['cut']) or \
+                           (c2['short'] == 'lmbda' and N < 4): continue
+                        res = w.run(c2); evals += 1
+                        if res.startswith('crash') or res == 'worker-died' or res == 'ok':
+                            ctx.violation('c19:no-length-check:misc_solvers.' + k, 'misc_solvers.%s with `%s` %d element(s) too short: %s (documented: TypeError / ValueError)' % (
+                                k, c2['short'], c2['cut'], 'accepted silently' if res == 'ok' else res), c2)
+        finally:
+            w.close()
+    os.environ.pop('CVXOPT_GUARD_UNDER', None)
+    return evals
 
 def search(ctx, why): return
 def replay(ctx, payload): correspond(ctx)
